@@ -1,5 +1,191 @@
-(* C11 - placeholder while the proofs are being written; replaced below. *)
-From Coq Require Import List.
-From PMS Require Import Model.Gateway.
-Theorem C11_placeholder : True. Proof. exact I. Qed.
-Print Assumptions C11_placeholder.
+(* C11 - persistence round trip is exact in both formats.
+
+   Model/Persist.v transcribes MySensorsJSONEncoder.default, MySensorsJSONDecoder.dict_to_object
+   (object_hook, bottom-up, three heuristics in source order, Sensor built through setattr and
+   the property setters), Persistence._load_json / _load_pickle (`self._sensors.update`),
+   Sensor.__getstate__ / __setstate__ and ChildSensor.__setstate__ on value trees; the text
+   layer of json and the byte layer of pickle are trusted.  `ver_ok` is the verdict of
+   validation.is_version on a string (awesomeversion: an oracle); theorems hold for every
+   `ver_ok`.  Statements only; proofs in Proofs/PersistProofs.v, Proofs/PersistInvProofs.v. *)
+From Coq Require Import List NArith ZArith Bool String.
+From PMS Require Import Base.PyStr Base.PyInt Base.Exn Model.TableTypes Model.Oracles Model.Gateway
+  Gen.PersistAst Model.Persist Proofs.GwInv Proofs.PersistProofs Proofs.PersistInvProofs.
+Import ListNotations.
+Open Scope list_scope.
+Open Scope Z_scope.
+
+(* ---- 1. JSON ---- *)
+
+(* json.load(cls=MySensorsJSONDecoder) of what json.dump(cls=MySensorsJSONEncoder) wrote for a
+   well-formed tree, merged into the empty sensors dict, is EXACTLY the dict of Sensor objects
+   (every instance attribute, in __dict__ order, int keys) that denotes load_tree t: all
+   persisted attributes as saved, new_state = {}, queue = deque(), reboot = False. *)
+Theorem json_roundtrip : forall (ver_ok : pstr -> bool) (t : tree),
+  wf_tree ver_ok t -> json_load ver_ok (enc_json t) = Ok (state_dict (load_tree t)).
+Proof. exact json_load_enc. Qed.
+
+(* the denotation is faithful: a state can be read back from its dict of objects *)
+Theorem state_dict_faithful : forall s : list (Z * node), read_state (state_dict s) = Some s.
+Proof. exact read_state_dict. Qed.
+
+Example json_roundtrip_premise : wf_tree ok_22 ex_tree.
+Proof. exact ex_tree_wf. Qed.
+Example json_roundtrip_instance : json_load ok_22 (enc_json ex_tree) = Ok (state_dict (load_tree ex_tree)).
+Proof. exact ex_tree_json. Qed.
+
+(* without wf_tree the statement is false ... *)
+Theorem json_roundtrip_unconditioned_refuted :
+  exists ver_ok t, json_load ver_ok (enc_json t) <> Ok (state_dict (load_tree t)).
+Proof. exact json_roundtrip_unconditioned_false. Qed.
+(* ... a negative node id comes back as the STRING key "-1" ("-1".isdigit() is False) *)
+Theorem json_negative_id_comes_back_as_string :
+  json_load ok_all (enc_json t_neg_node) = Ok [(KStr (s2p "-1"), VSensor (node_attrs (new_node (-1))))].
+Proof. exact neg_node_result. Qed.
+(* ... one negative value type leaves ALL keys of that values dict strings *)
+Theorem json_negative_value_type_poisons_dict :
+  exists a, json_load ok_all (enc_json t_neg_vt) = Ok [(KInt 1, VSensor a)] /\
+    aget k_children a =
+      Some (VDict [(KInt 2, VChild [(k_id, VInt 2); (k_type, VInt 0); (k_description, VStr []);
+                                    (k_values, VDict [(KStr (s2p "-1"), VStr (s2p "x")); (KStr (s2p "3"), VStr (s2p "y"))])])]).
+Proof. exact neg_value_type_result. Qed.
+(* ... a battery level outside 0..100 comes back as 0 (both formats), a protocol version that
+   is_version rejects comes back as "1.4" *)
+Theorem attributes_outside_setter_ranges_are_reset :
+  (json_restore ok_all (enc_json t_batt) = Ok (Some [(1, new_node 1)]) /\
+   pickle_node ok_all (mkNode 1 [] None None None 500 (s2p "1.4") 0 [] [] false) = Ok (Some (new_node 1))) /\
+  json_restore ok_none (enc_json t_pver) = Ok (Some [(1, new_node 1)]).
+Proof. exact (conj battery_out_of_range_result rejected_version_result). Qed.
+
+(* ---- 2. pickle ---- *)
+
+(* Sensor.__getstate__, then Sensor.__new__ + __setstate__: every persisted attribute is
+   restored, new_state / queue / reboot are reset WHATEVER they were (they are part of the
+   pickled state), and the result reads back as load_node (proj_node n). *)
+Theorem pickle_roundtrip : forall (ver_ok : pstr -> bool) (n : node),
+  attr_ok ver_ok n ->
+  setstate ver_ok (getstate (node_attrs n)) = Ok (node_attrs_pickled (persisted n)) /\
+  pickle_node ver_ok n = Ok (Some (load_node (proj_node n))).
+Proof. exact pickle_roundtrip_thm. Qed.
+
+Example pickle_state_contains_transient :
+  match ex_state with
+  | (_, n) :: _ => aget k_reboot (getstate (node_attrs n)) = Some (VBool true)
+                   /\ aget k_queue (getstate (node_attrs n)) = Some (VDeque (n_queue n))
+  | [] => False
+  end.
+Proof. exact ex_pickle_contains_transient. Qed.
+
+Theorem pickle_roundtrip_unconditioned_refuted :
+  exists ver_ok n, pickle_node ver_ok n <> Ok (Some (load_node (proj_node n))).
+Proof. exact pickle_roundtrip_unconditioned_false. Qed.
+
+(* ---- 3. both formats on machine states ---- *)
+
+(* save as JSON and load, save as pickle and load: both give load_tree (proj s) - the same
+   state - and no transient state comes back *)
+Theorem formats_agree : forall (ver_ok : pstr -> bool) (s : list (Z * node)),
+  wf_tree ver_ok (proj s) ->
+  json_restore ver_ok (json_save s) = Ok (Some (load_tree (proj s))) /\
+  pickle_restore ver_ok (pickle_save s) = Ok (Some (load_tree (proj s))) /\
+  Forall transient_empty (load_tree (proj s)).
+Proof. exact formats_agree_thm. Qed.
+
+Example formats_agree_nonvacuous :
+  ~ Forall transient_empty ex_state /\
+  json_restore ok_22 (json_save ex_state) = Ok (Some (load_tree (proj ex_state))) /\
+  pickle_restore ok_22 (pickle_save ex_state) = Ok (Some (load_tree (proj ex_state))).
+Proof. exact (conj ex_state_transient_not_empty ex_state_formats). Qed.
+
+(* ---- 4. the heuristics of dict_to_object ---- *)
+
+(* objs_tree lists exactly the objects of the document, each with its role ... *)
+Theorem hook_objects_complete : forall t : tree, all_objs (enc_json t) = map snd (objs_tree t).
+Proof. exact all_objs_tree. Qed.
+(* ... and on each of them exactly the intended branch fires: Sensor on encoded Sensors,
+   ChildSensor on encoded ChildSensors, int keys on the sensors / children / values dicts
+   (including the EMPTY ones, where all(k.isdigit()) is vacuously true) *)
+Theorem hook_no_misfire : forall (ver_ok : pstr -> bool) (t : tree),
+  wf_tree ver_ok t -> Forall fires_as_expected (objs_tree t).
+Proof. exact fires_tree. Qed.
+
+Theorem hook_no_misfire_unconditioned_refuted : exists t, ~ Forall fires_as_expected (objs_tree t).
+Proof. exact hook_misfire_outside_wf. Qed.
+
+(* the corners, on documents the encoder never writes *)
+Theorem hook_corners :
+  (branch_of [] = BIntKeys /\ dec_json ok_all (JObj []) = Ok (VDict [])) /\
+  dec_json ok_all (JObj [(J "7", JStr (J "x"))]) = Ok (VDict [(KInt 7, VStr (J "x"))]) /\
+  (exists a, dec_json ok_all (JObj [(J "note", JStr (J "x")); (J "sensor_id", JInt 1)]) = Ok (VSensor a)
+             /\ aget (J "note") a = Some (VStr (J "x"))) /\
+  dec_json ok_all (JObj [(J "values", JInt 3); (J "type", JInt 2); (J "id", JInt 1); (J "extra", JInt 4)])
+    = Ok (VChild [(k_id, VInt 1); (k_type, VInt 2); (k_description, VStr []); (k_values, VInt 3)]) /\
+  dec_json ok_all (JObj [([178%N], JInt 1)]) = Raise ValueError /\
+  dec_json ok_all (JObj [([1633%N], JInt 1); (J "1", JInt 2)]) = Ok (VDict [(KInt 1, VInt 2)]).
+Proof.
+  exact (conj corner_empty_dict (conj corner_digit_string_keys (conj corner_sensor_id_member
+        (conj corner_child_members (conj corner_isdigit_not_decimal corner_digit_keys_collide))))).
+Qed.
+
+(* the decoder does not reset transient attributes, refuses the read-only property, and the
+   underscored names bypass the setters: only the ENCODER keeps these out of the file *)
+Theorem decoder_trusts_the_document :
+  (exists a, dec_json ok_all (JObj [(J "sensor_id", JInt 1); (J "reboot", JInt 1)]) = Ok (VSensor a)
+             /\ aget k_reboot a = Some (VInt 1)) /\
+  dec_json ok_all (JObj [(J "sensor_id", JInt 1); (J "is_smart_sleep_node", JInt 1)]) = Raise AttributeError /\
+  (exists a, dec_json ok_all (JObj [(J "sensor_id", JInt 1); (J "_battery_level", JInt 500)]) = Ok (VSensor a)
+             /\ aget k__battery_level a = Some (VInt 500)).
+Proof.
+  exact (conj corner_transient_in_document (conj corner_readonly_property corner_underscore_bypasses_setter)).
+Qed.
+
+(* ---- 5. every reachable state is well formed ---- *)
+
+(* after any history of operations from the initial state, in any of the five configurations,
+   for every oracle and clock: the persisted projection satisfies wf_tree (and more: key = id,
+   ids in 0..255, child key = child id, values are strings - sens_ok) *)
+Theorem reachable_wf : forall (orc : oracles) (clock : Z) (cf : config) (ops : list op),
+  cfg_ok cf -> Forall op_ok ops ->
+  wf_tree (orc_version orc) (proj (g_sensors (run orc clock (gw_init cf) ops))).
+Proof. exact reachable_wf_thm. Qed.
+
+Theorem reachable_sens_ok : forall (orc : oracles) (clock : Z) (cf : config) (ops : list op),
+  cfg_ok cf -> Forall op_ok ops -> sens_ok orc (g_sensors (run orc clock (gw_init cf) ops)).
+Proof. exact reachable_sens_ok_thm. Qed.
+
+(* hence: in every reachable state both formats round trip exactly *)
+Theorem reachable_roundtrip : forall (orc : oracles) (clock : Z) (cf : config) (ops : list op),
+  cfg_ok cf -> Forall op_ok ops ->
+  let s := g_sensors (run orc clock (gw_init cf) ops) in
+  json_restore (orc_version orc) (json_save s) = Ok (Some (load_tree (proj s))) /\
+  pickle_restore (orc_version orc) (pickle_save s) = Ok (Some (load_tree (proj s))) /\
+  Forall transient_empty (load_tree (proj s)).
+Proof. exact reachable_roundtrip_thm. Qed.
+
+(* what a restart loads is again well formed (the machine-level restart installs load_tree t) *)
+Theorem restart_keeps_wf : forall (ver_ok : pstr -> bool) (t : tree),
+  wf_tree ver_ok t -> wf_tree ver_ok (proj (load_tree t)).
+Proof. exact wf_restart. Qed.
+
+(* ---- 6. the model transcribes the source as it is now ---- *)
+Theorem model_matches_source : source_shape_ok.
+Proof. exact source_shape_holds. Qed.
+
+Print Assumptions json_roundtrip.
+Print Assumptions state_dict_faithful.
+Print Assumptions json_roundtrip_unconditioned_refuted.
+Print Assumptions json_negative_id_comes_back_as_string.
+Print Assumptions json_negative_value_type_poisons_dict.
+Print Assumptions attributes_outside_setter_ranges_are_reset.
+Print Assumptions pickle_roundtrip.
+Print Assumptions pickle_roundtrip_unconditioned_refuted.
+Print Assumptions formats_agree.
+Print Assumptions hook_objects_complete.
+Print Assumptions hook_no_misfire.
+Print Assumptions hook_no_misfire_unconditioned_refuted.
+Print Assumptions hook_corners.
+Print Assumptions decoder_trusts_the_document.
+Print Assumptions reachable_wf.
+Print Assumptions reachable_sens_ok.
+Print Assumptions reachable_roundtrip.
+Print Assumptions restart_keeps_wf.
+Print Assumptions model_matches_source.
